@@ -34,50 +34,58 @@ def field(eng, v, tyname, fname):
     return v.f[eng.struct_adt(tyname).field_index(fname)]
 
 
-def sym_enforcer(eng, st, fraction):
-    cfg = {f: U("cfg." + f) for f in CFG_FIELDS}
+def inputs(eng, src, v6, fraction):
+    """named inputs of one add/remove case: config, network size, candidate analysis, the enforcer's maps probed at the
+    candidate's keys ('cand') and at one arbitrary other key per map ('other')"""
+    cfg = {f: src.bv("cfg." + f, 64) for f in CFG_FIELDS}
     cfg["max_network_fraction"] = fpv(fraction)
-    cfg["enable_geolocation_check"] = z3.Bool("cfg.enable_geolocation_check")
+    cfg["enable_geolocation_check"] = src.bool("cfg.enable_geolocation_check")
+    size = src.bv("network_size", 64)
+    asn_some = src.bool("a.asn_some")
+    asn_v = src.bv("a.asn", 32)
+    c_some = src.bool("a.country_some")
+    c_v = src.bv("a.country", 64)
+    asn = VEnum(OPTION, z3.If(asn_some, bv(1, 8), bv(0, 8)), {0: (), 1: (asn_v,)})
+    country = VEnum(OPTION, z3.If(c_some, bv(1, 8), bv(0, 8)), {0: (), 1: (VStr(c_v),)})
+    hosting, vpn = src.bool("a.hosting"), src.bool("a.vpn")
+    rep = src.f64("a.rep")
+    if v6:
+        vals = {"subnet_64": src.bytes("a.s64", 16), "subnet_48": src.bytes("a.s48", 16), "subnet_32": src.bytes("a.s32", 16), "asn": asn, "country": country,
+                "is_hosting_provider": hosting, "is_vpn_provider": vpn, "reputation_score": rep}
+        a = mk_struct(eng, "IPAnalysis", vals)
+        keys = {"subnet_64_counts": key_bv(vals["subnet_64"]), "subnet_48_counts": key_bv(vals["subnet_48"]), "subnet_32_counts": key_bv(vals["subnet_32"])}
+        variant = "IPv6"
+    else:
+        vals = {"ip_addr": src.bytes("a.ip", 4), "subnet_24": src.bytes("a.s24", 4), "subnet_16": src.bytes("a.s16", 4), "subnet_8": src.bytes("a.s8", 4),
+                "asn": asn, "country": country, "is_hosting_provider": hosting, "is_vpn_provider": vpn, "reputation_score": rep}
+        a = mk_struct(eng, "IPv4Analysis", vals)
+        keys = {"ipv4_32_counts": key_bv(vals["ip_addr"]), "ipv4_24_counts": key_bv(vals["subnet_24"]), "ipv4_16_counts": key_bv(vals["subnet_16"])}
+        variant = "IPv4"
+    keys["asn_counts"] = asn_v
+    keys["country_counts"] = c_v
+    info = eng.enum_info("UnifiedIPAnalysis")
+    uni = VEnum(info, bv(info.index(variant), 8), {info.index(variant): (a,)})
+    hv = z3.Or(hosting, vpn)
+    lv = levels_v6(cfg, hv, asn_some) if v6 else levels_v4(cfg, hv, asn_some, size, fraction)
+    others = {}
+    probes = {}
+    for n, kw in MAPS:
+        if kw in (128, 32) and n != "asn_counts":
+            others[n] = key_bv(src.bytes("other." + n, kw // 8))
+        else:
+            others[n] = src.bv("other." + n, kw)
+        probes[n] = {"other": others[n]}
+        if n in keys:
+            probes[n]["cand"] = keys[n]
+    maps0 = {n: src.map("E." + n, kw, bv(0, 64), probes[n], cap=50_000) for n, kw in MAPS}
+    return cfg, size, uni, keys, lv, c_some, others, probes, maps0
+
+
+def enforcer_value(eng, cfg, size, maps0):
     config = mk_struct(eng, "IPDiversityConfig", cfg)
-    vals = {"config": config, "geo_provider": VEnum(OPTION, bv(0, 8), {0: ()}), "network_size": U("network_size")}
-    for name, kw in MAPS:
-        vals[name] = mk_map(eng, "E." + name, kw, bv(0, 64), cap=50_000)
-    return mk_struct(eng, "IPDiversityEnforcer", vals), cfg
-
-
-def opt(idx_name, payload):
-    i = z3.Bool(idx_name)
-    return VEnum(OPTION, z3.If(i, bv(1, 8), bv(0, 8)), {0: (), 1: (payload,)}), i
-
-
-def addr(name, n):
-    return VArr([z3.BitVec(f"{name}.{i}", 8) for i in range(n)])
-
-
-def sym_v6_analysis(eng):
-    asn, asn_some = opt("a.asn_some", z3.BitVec("a.asn", 32))
-    country, c_some = opt("a.country_some", VStr(z3.BitVec("a.country", 64)))
-    vals = {"subnet_64": addr("a.s64", 16), "subnet_48": addr("a.s48", 16), "subnet_32": addr("a.s32", 16), "asn": asn, "country": country,
-            "is_hosting_provider": z3.Bool("a.hosting"), "is_vpn_provider": z3.Bool("a.vpn"), "reputation_score": f64("a.rep")}
-    a = mk_struct(eng, "IPAnalysis", vals)
-    keys = {"subnet_64_counts": key_bv(vals["subnet_64"]), "subnet_48_counts": key_bv(vals["subnet_48"]), "subnet_32_counts": key_bv(vals["subnet_32"]),
-            "asn_counts": z3.BitVec("a.asn", 32), "country_counts": z3.BitVec("a.country", 64)}
-    return a, keys, asn_some, c_some, z3.Or(vals["is_hosting_provider"], vals["is_vpn_provider"])
-
-
-def sym_v4_analysis(eng):
-    asn, asn_some = opt("a.asn_some", z3.BitVec("a.asn", 32))
-    country, c_some = opt("a.country_some", VStr(z3.BitVec("a.country", 64)))
-    vals = {"ip_addr": addr("a.ip", 4), "subnet_24": addr("a.s24", 4), "subnet_16": addr("a.s16", 4), "subnet_8": addr("a.s8", 4), "asn": asn,
-            "country": country, "is_hosting_provider": z3.Bool("a.hosting"), "is_vpn_provider": z3.Bool("a.vpn"), "reputation_score": f64("a.rep")}
-    a = mk_struct(eng, "IPv4Analysis", vals)
-    keys = {"ipv4_32_counts": key_bv(vals["ip_addr"]), "ipv4_24_counts": key_bv(vals["subnet_24"]), "ipv4_16_counts": key_bv(vals["subnet_16"]),
-            "asn_counts": z3.BitVec("a.asn", 32), "country_counts": z3.BitVec("a.country", 64)}
-    return a, keys, asn_some, c_some, z3.Or(vals["is_hosting_provider"], vals["is_vpn_provider"])
-
-
-def emap(eng, e, name):
-    return field(eng, e, "IPDiversityEnforcer", name)
+    vals = {"config": config, "geo_provider": VEnum(OPTION, bv(0, 8), {0: ()}), "network_size": size}
+    vals.update(maps0)
+    return mk_struct(eng, "IPDiversityEnforcer", vals)
 
 
 def count_at(m, k):
@@ -126,148 +134,169 @@ def levels_v4(cfg, hv, asn_some, size, fraction):
             ("ipv4_16_counts", halve(l16, hv), z3.BoolVal(True)), ("asn_counts", cfg["max_nodes_per_asn"], asn_some)]
 
 
-def group_add_remove(ck, v6, preset):
+CFG_OBS = ["max_nodes_per_64", "max_nodes_per_48", "max_nodes_per_32", "max_nodes_per_ipv4_32", "max_nodes_per_ipv4_24", "max_nodes_per_ipv4_16",
+           "max_per_ip_cap", "max_nodes_per_asn", "min_geographic_diversity"]
+
+
+def build_add_remove(ck, v6, preset, src, obs=None):
+    """-> dict with goals (closed implications), hyps, reach conditions, engine (symbolic mode)"""
     fraction = FRACTIONS[preset]
-    eng = ck.engine()
-    st = State()
-    E0, cfg = sym_enforcer(eng, st, fraction)
-    rE = eng.alloc(st, E0)
-    if v6:
-        a, keys, asn_some, c_some, hv = sym_v6_analysis(eng)
-        uni = VEnum(eng.enum_info("UnifiedIPAnalysis"), bv(eng.enum_info("UnifiedIPAnalysis").index("IPv6"), 8), {eng.enum_info("UnifiedIPAnalysis").index("IPv6"): (a,)})
-        lv = levels_v6(cfg, hv, asn_some)
-    else:
-        a, keys, asn_some, c_some, hv = sym_v4_analysis(eng)
-        uni = VEnum(eng.enum_info("UnifiedIPAnalysis"), bv(eng.enum_info("UnifiedIPAnalysis").index("IPv4"), 8), {eng.enum_info("UnifiedIPAnalysis").index("IPv4"): (a,)})
-        lv = levels_v4(cfg, hv, asn_some, U("network_size"), fraction)
-    rU = eng.alloc(st, uni)
-    size = U("network_size")
+    eng = ck.engine() if obs is None else ck.meta_engine()
+    cfg, size, uni, keys, lv, c_some, others, probes, maps0 = inputs(eng, src, v6, fraction)
     touched = [n for n, _, _ in lv] + ["country_counts"]
     cond_of = {n: c for n, _, c in lv}
     cond_of["country_counts"] = c_some
-    hyps = [z3.ULE(size, bv(1 << 32, 64))]
+    hyps = list(src.hyps) + [z3.ULE(size, bv(1 << 32, 64))]
     for f in CFG_FIELDS:
         if f not in ("max_network_fraction", "enable_geolocation_check", "min_geographic_diversity"):
             hyps.append(z3.UGE(cfg[f], 1))  # a cap of 0 is outside the claim (the code treats an untracked prefix as admissible)
     for n in touched:
-        hyps.append(inv_at(emap(eng, E0, n), keys[n]))
-        hyps.append(z3.ULE(count_at(emap(eng, E0, n), keys[n]), bv(1 << 40, 64)))  # counts are bounded by the number of admitted nodes
-    tag = f"{'v6' if v6 else 'v4'}[{preset}]"
-    rp = ck.replayer("add_remove", {"v6": v6, "preset": preset})
-
-    # ---- can_accept_unified agrees with the cap rule
-    st_c, acc = eng.call(ck.fn(r"security::<impl at [^>]*>::can_accept_unified$"), [rE, rU], st)
-    below = z3.And(*[z3.Implies(c, z3.ULT(count_at(emap(eng, E0, n), keys[n]), lim)) for n, lim, c in lv])
-    ck.prove(f"can_accept/{tag}/accept_iff_all_levels_below_cap", eng, hyps + [st_c.pc], acc == below, on_sat=rp)
-
-    # ---- add_unified
-    st1, res = eng.call(ck.fn(r"security::<impl at [^>]*>::add_unified$"), [rE, rU], st)
-    E1 = eng.load(st1, rE)
-    okk = res.idx == bv(0, 8)
-    H = hyps + [st1.pc]
-    ck.prove(f"add/{tag}/ok_iff_all_levels_below_cap", eng, H, okk == below, on_sat=rp)
+        for k in (keys[n], others[n]):
+            hyps.append(inv_at(maps0[n], k))
+            hyps.append(z3.ULE(count_at(maps0[n], k), bv(1 << 40, 64)))  # counts are bounded by the number of admitted nodes
+    for n, kw in MAPS:
+        hyps.append(inv_at(maps0[n], others[n]))
+    R = {"eng": eng, "hyps": hyps}
+    if obs is None:
+        st = State()
+        E0 = enforcer_value(eng, cfg, size, maps0)
+        rE = eng.alloc(st, E0)
+        rU = eng.alloc(st, uni)
+        st_c, acc = eng.call(ck.fn(r"security::<impl at [^>]*>::can_accept_unified$"), [rE, rU], st)
+        st1, res = eng.call(ck.fn(r"security::<impl at [^>]*>::add_unified$"), [rE, rU], st)
+        E1 = eng.load(st1, rE)
+        okk = res.idx == bv(0, 8)
+        st1b = st1.fork(okk)
+        st2, _ = eng.call(ck.fn(r"security::<impl at [^>]*>::remove_unified$"), [rE, rU], st1b)
+        E2 = eng.load(st2, rE)
+        st3, _ = eng.call(ck.fn(r"security::<impl at [^>]*>::remove_unified$"), [rE, rU], st)
+        E3 = eng.load(st3, rE)
+        fld = lambda E, n: field(eng, E, "IPDiversityEnforcer", n)  # noqa: E731
+        maps1 = {n: fld(E1, n) for n, _ in MAPS}
+        maps2 = {n: fld(E2, n) for n, _ in MAPS}
+        maps3 = {n: fld(E3, n) for n, _ in MAPS}
+        cfg1 = [field(eng, fld(E1, "config"), "IPDiversityConfig", f) for f in CFG_OBS]
+        size1 = fld(E1, "network_size")
+        pcs = {"can": st_c.pc, "add": st1.pc, "addrm": st2.pc, "rm": st3.pc}
+    else:
+        acc = z3.BoolVal(bool(obs["can_accept"]))
+        okk = z3.BoolVal(bool(obs["add_ok"]))
+        maps1 = {n: harness.obs_map(obs, "add." + n, kw, bv(0, 64), probes[n]) for n, kw in MAPS}
+        maps2 = {n: harness.obs_map(obs, "addrm." + n, kw, bv(0, 64), probes[n]) for n, kw in MAPS}
+        maps3 = {n: harness.obs_map(obs, "rm." + n, kw, bv(0, 64), probes[n]) for n, kw in MAPS}
+        cfg1 = [bv(int(x), 64) for x in obs["add.cfg"]]
+        size1 = bv(int(obs["add.network_size"]), 64)
+        T = z3.BoolVal(True)
+        pcs = {"can": T, "add": T, "addrm": okk, "rm": T}
+    below = z3.And(*[z3.Implies(c, z3.ULT(count_at(maps0[n], keys[n]), lim)) for n, lim, c in lv])
+    G = {}
+    G["can_accept/accept_iff_all_levels_below_cap"] = ("can", acc == below)
+    G["add/ok_iff_all_levels_below_cap"] = ("add", okk == below)
     incs = []
     for n in touched:
-        m0, m1 = emap(eng, E0, n), emap(eng, E1, n)
         k = keys[n]
-        inc = z3.And(z3.Select(m1.present, k), z3.Select(m1.val, k) == count_at(m0, k) + 1)
-        incs.append(z3.If(cond_of[n], inc, same_at(m0, m1, k)))
-    ck.prove(f"add/{tag}/ok_increments_exactly_the_candidates_counters", eng, H + [okk], z3.And(*incs), on_sat=rp)
-    caps = [z3.Implies(c, z3.ULE(count_at(emap(eng, E1, n), keys[n]), lim)) for n, lim, c in lv]
-    ck.prove(f"add/{tag}/ok_leaves_every_level_within_cap", eng, H + [okk], z3.And(*caps), on_sat=rp)
-    # frame: other keys of touched maps, all untouched maps, config, network size
+        inc = z3.And(z3.Select(maps1[n].present, k), z3.Select(maps1[n].val, k) == count_at(maps0[n], k) + 1)
+        incs.append(z3.If(cond_of[n], inc, same_at(maps0[n], maps1[n], k)))
+    G["add/ok_increments_exactly_the_candidates_counters"] = ("add", z3.Implies(okk, z3.And(*incs)))
+    G["add/ok_leaves_every_level_within_cap"] = ("add", z3.Implies(okk, z3.And(*[z3.Implies(c, z3.ULE(count_at(maps1[n], keys[n]), lim)) for n, lim, c in lv])))
     frame = []
     for n, kw in MAPS:
-        m0, m1 = emap(eng, E0, n), emap(eng, E1, n)
-        k2 = z3.BitVec(f"other.{n}", kw)
-        if n in touched:
-            frame.append(z3.Implies(k2 != keys[n], same_at(m0, m1, k2)))
-        else:
-            frame.append(same_at(m0, m1, k2))
-    frame.append(z3.And(*[x == y for x, y in zip(flatten(field(eng, E0, "IPDiversityEnforcer", "config")), flatten(field(eng, E1, "IPDiversityEnforcer", "config")))]))
-    frame.append(field(eng, E1, "IPDiversityEnforcer", "network_size") == size)
-    ck.prove(f"add/{tag}/nothing_else_changes", eng, H, z3.And(*frame), on_sat=rp)
-    unchanged = []
-    for n, kw in MAPS:
-        m0, m1 = emap(eng, E0, n), emap(eng, E1, n)
-        k2 = z3.BitVec(f"any.{n}", kw)
-        unchanged.append(same_at(m0, m1, k2))
-    ck.prove(f"add/{tag}/failed_admission_consumes_nothing", eng, H + [z3.Not(okk)], z3.And(*unchanged), on_sat=rp)
-    ck.prove(f"add/{tag}/invariant_preserved", eng, H, z3.And(*[inv_at(emap(eng, E1, n), keys[n]) for n in touched]), on_sat=rp)
-    ck.reach(f"add/{tag}/reach_ok", eng, H, okk)
-    ck.reach(f"add/{tag}/reach_err", eng, H, z3.Not(okk))
-
-    # ---- remove_unified after a successful add gives every slot back
-    st1.pc = z3.simplify(z3.And(st1.pc, okk))
-    r2 = eng.call(ck.fn(r"security::<impl at [^>]*>::remove_unified$"), [rE, rU], st1)
-    st2, _ = r2
-    E2 = eng.load(st2, rE)
-    back = []
-    for n, kw in MAPS:
-        m0, m2 = emap(eng, E0, n), emap(eng, E2, n)
-        k2 = z3.BitVec(f"any.{n}", kw)
-        back.append(same_at(m0, m2, k2))
-    # at the candidate's own keys too (k2 ranges over all keys), under the representation invariant at those keys
-    inv_any = [inv_at(emap(eng, E0, n), z3.BitVec(f"any.{n}", kw)) for n, kw in MAPS]
-    ck.prove(f"remove/{tag}/add_then_remove_restores_every_counter", eng, hyps + inv_any + [st2.pc], z3.And(*back), on_sat=rp)
-
-    # ---- remove_unified alone from an arbitrary state: each of the candidate's tracked levels goes down by one, untracked stay untracked
-    st3, _ = eng.call(ck.fn(r"security::<impl at [^>]*>::remove_unified$"), [rE, rU], st)
-    E3 = eng.load(st3, rE)
+        k2 = others[n]
+        frame.append(z3.Implies(k2 != keys[n], same_at(maps0[n], maps1[n], k2)) if n in touched else same_at(maps0[n], maps1[n], k2))
+    frame.append(z3.And(*[x == cfg[f] for x, f in zip(cfg1, CFG_OBS)]))
+    frame.append(size1 == size)
+    G["add/nothing_else_changes"] = ("add", z3.And(*frame))
+    G["add/failed_admission_consumes_nothing"] = ("add", z3.Implies(z3.Not(okk), z3.And(*[same_at(maps0[n], maps1[n], k) for n, kw in MAPS for k in ([others[n]] + ([keys[n]] if n in keys else []))])))
+    G["add/invariant_preserved"] = ("add", z3.And(*[inv_at(maps1[n], keys[n]) for n in touched]))
+    G["remove/add_then_remove_restores_every_counter"] = ("addrm", z3.And(*[same_at(maps0[n], maps2[n], k) for n, kw in MAPS for k in ([others[n]] + ([keys[n]] if n in keys else []))]))
     dec = []
     for n in touched:
-        m0, m3 = emap(eng, E0, n), emap(eng, E3, n)
         k = keys[n]
-        c0 = z3.Select(m0.val, k)
-        stepdown = z3.If(z3.And(z3.Select(m0.present, k), z3.UGT(c0, 1)), z3.And(z3.Select(m3.present, k), z3.Select(m3.val, k) == c0 - 1),
+        c0 = z3.Select(maps0[n].val, k)
+        m3 = maps3[n]
+        stepdown = z3.If(z3.And(z3.Select(maps0[n].present, k), z3.UGT(c0, 1)), z3.And(z3.Select(m3.present, k), z3.Select(m3.val, k) == c0 - 1),
                          z3.Not(z3.Select(m3.present, k)))
-        dec.append(z3.If(cond_of[n], stepdown, same_at(m0, m3, k)))
-    ck.prove(f"remove/{tag}/each_tracked_level_decrements_by_one", eng, hyps + [st3.pc], z3.And(*dec), on_sat=rp)
+        dec.append(z3.If(cond_of[n], stepdown, same_at(maps0[n], m3, k)))
+    G["remove/each_tracked_level_decrements_by_one"] = ("rm", z3.And(*dec))
     frame3 = []
     for n, kw in MAPS:
-        m0, m3 = emap(eng, E0, n), emap(eng, E3, n)
-        k2 = z3.BitVec(f"other.{n}", kw)
-        frame3.append(z3.Implies(k2 != keys[n], same_at(m0, m3, k2)) if n in touched else same_at(m0, m3, k2))
-    ck.prove(f"remove/{tag}/nothing_else_changes", eng, hyps + [st3.pc], z3.And(*frame3), on_sat=rp)
-    ck.side(f"side/{tag}", eng, hyps, on_sat=rp)
-    ck.out.samples.append({"obligation": f"add/remove {tag}", "state": "arbitrary IPDiversityEnforcer: 8 LruCaches as SMT arrays, 10 symbolic caps, network_size<=2^32, fraction=" + str(fraction),
-                           "input": "arbitrary analysis (prefixes, asn?, country?, hosting, vpn)"})
+        k2 = others[n]
+        frame3.append(z3.Implies(k2 != keys[n], same_at(maps0[n], maps3[n], k2)) if n in touched else same_at(maps0[n], maps3[n], k2))
+    G["remove/nothing_else_changes"] = ("rm", z3.And(*frame3))
+    R["goals"] = {g: z3.Implies(pcs[w], f) for g, (w, f) in G.items()}
+    R["reach"] = {"add/reach_ok": z3.And(pcs["add"], okk), "add/reach_err": z3.And(pcs["add"], z3.Not(okk))}
+    return R
+
+
+def group_add_remove(ck, v6, preset):
+    params = {"v6": v6, "preset": preset, "fraction": FRACTIONS[preset]}
+    src = harness.Src()
+    R = build_add_remove(ck, v6, preset, src)
+    tag = f"{'v6' if v6 else 'v4'}[{preset}]"
+    rp = harness.make_replayer(ck, "security", "add_remove", lambda s, obs: build_add_remove(ck, v6, preset, s, obs)["goals"], params)
+    ck.register_src("add_remove", params, src)
+    for g, f in R["goals"].items():
+        ck.prove(f"{tag}/{g}", R["eng"], R["hyps"], f, on_sat=rp, meta={"goal": g})
+    for g, f in R["reach"].items():
+        ck.reach(f"{tag}/{g}", R["eng"], R["hyps"], f)
+    ck.side(f"{tag}/side", R["eng"], R["hyps"], on_sat=rp)
+    ck.out.samples.append({"obligation": f"add/remove {tag}", "state": "arbitrary IPDiversityEnforcer: 8 LruCaches as SMT arrays, 10 symbolic caps, network_size<=2^32, fraction=" + str(FRACTIONS[preset]),
+                           "input": "arbitrary analysis (prefixes, asn?, country?, hosting, vpn)", "goals": list(R["goals"])})
+
+
+def build_analyze(ck, src, obs=None):
+    eng = ck.engine() if obs is None else ck.meta_engine()
+    ip6 = src.bytes("ip6", 16)
+    ip4 = src.bytes("ip4", 4)
+    b6, b4 = key_bv(ip6), key_bv(ip4)
+
+    def msk(ipbv, nbytes, total):
+        return ipbv & bv(((1 << (8 * nbytes)) - 1) << (8 * (total - nbytes)), 8 * total)
+
+    if obs is None:
+        st = State()
+        cfg = {f: src.bv("cfg." + f, 64) for f in CFG_FIELDS}
+        cfg["max_network_fraction"] = fpv(0.005)
+        cfg["enable_geolocation_check"] = src.bool("cfg.enable_geolocation_check")
+        maps0 = {n: mk_map(eng, "E." + n, kw, bv(0, 64), cap=50_000) for n, kw in MAPS}
+        E0 = enforcer_value(eng, cfg, src.bv("network_size", 64), maps0)
+        rE = eng.alloc(st, E0)
+        st1, r = eng.call(ck.fn(r"security::<impl at [^>]*>::analyze_ip$"), [rE, ip6], st)
+        a = r.pay[0][0]
+        F = lambda n: field(eng, a, "IPAnalysis", n)  # noqa: E731
+        st2, r4 = eng.call(ck.fn(r"security::<impl at [^>]*>::analyze_ipv4$"), [rE, ip4], st)
+        a4 = r4.pay[0][0]
+        Gf = lambda n: field(eng, a4, "IPv4Analysis", n)  # noqa: E731
+        o = {"v6.s64": key_bv(F("subnet_64")), "v6.s48": key_bv(F("subnet_48")), "v6.s32": key_bv(F("subnet_32")), "v6.asn_some": F("asn").idx == bv(1, 8),
+             "v6.country_some": F("country").idx == bv(1, 8), "v6.hosting": F("is_hosting_provider"), "v6.vpn": F("is_vpn_provider"), "v6.ok": r.idx == bv(0, 8),
+             "v4.ip": key_bv(Gf("ip_addr")), "v4.s24": key_bv(Gf("subnet_24")), "v4.s16": key_bv(Gf("subnet_16")), "v4.s8": key_bv(Gf("subnet_8")), "v4.ok": r4.idx == bv(0, 8)}
+        pcs = (st1.pc, st2.pc)
+    else:
+        tobv = lambda l: bv(int.from_bytes(bytes(l), "big"), 8 * len(l))  # noqa: E731
+        o = {k: (tobv(v) if isinstance(v, list) else z3.BoolVal(bool(v))) for k, v in obs.items()}
+        o["v6.ok"] = z3.BoolVal(True)
+        o["v4.ok"] = z3.BoolVal(True)
+        pcs = (z3.BoolVal(True), z3.BoolVal(True))
+    goals = {
+        "analyze/v6/prefixes_are_masks_of_the_address": z3.Implies(pcs[0], z3.And(o["v6.ok"], o["v6.s64"] == msk(b6, 8, 16), o["v6.s48"] == msk(b6, 6, 16), o["v6.s32"] == msk(b6, 4, 16),
+                                                                              z3.Not(o["v6.asn_some"]), z3.Not(o["v6.country_some"]), z3.Not(o["v6.hosting"]), z3.Not(o["v6.vpn"]))),
+        "analyze/v4/prefixes_are_masks_of_the_address": z3.Implies(pcs[1], z3.And(o["v4.ok"], o["v4.ip"] == b4, o["v4.s24"] == msk(b4, 3, 4), o["v4.s16"] == msk(b4, 2, 4), o["v4.s8"] == msk(b4, 1, 4))),
+    }
+    return {"eng": eng, "goals": goals, "hyps": list(src.hyps)}
 
 
 def group_analyze(ck):
-    eng = ck.engine()
-    st = State()
-    E0, cfg = sym_enforcer(eng, st, 0.005)
-    rE = eng.alloc(st, E0)
-    rp = ck.replayer("analyze", {})
-    ip6 = addr("ip6", 16)
-    st1, r = eng.call(ck.fn(r"security::<impl at [^>]*>::analyze_ip$"), [rE, ip6], st)
-    a = r.pay[0][0]
-    ipbv = key_bv(ip6)
-
-    def msk(nbytes, total):
-        return ipbv & bv(((1 << (8 * nbytes)) - 1) << (8 * (total - nbytes)), 8 * total)
-
-    F = lambda n: field(eng, a, "IPAnalysis", n)  # noqa: E731
-    ck.prove("analyze/v6/prefixes_are_masks_of_the_address", eng, [st1.pc],
-             z3.And(r.idx == bv(0, 8), key_bv(F("subnet_64")) == msk(8, 16), key_bv(F("subnet_48")) == msk(6, 16), key_bv(F("subnet_32")) == msk(4, 16),
-                    F("asn").idx == bv(0, 8), F("country").idx == bv(0, 8), z3.Not(F("is_hosting_provider")), z3.Not(F("is_vpn_provider"))), on_sat=rp)
-    ip4 = addr("ip4", 4)
-    st2, r4 = eng.call(ck.fn(r"security::<impl at [^>]*>::analyze_ipv4$"), [rE, ip4], st)
-    a4 = r4.pay[0][0]
-    ipbv = key_bv(ip4)
-    G = lambda n: field(eng, a4, "IPv4Analysis", n)  # noqa: E731
-    ck.prove("analyze/v4/prefixes_are_masks_of_the_address", eng, [st2.pc],
-             z3.And(r4.idx == bv(0, 8), key_bv(G("ip_addr")) == ipbv, key_bv(G("subnet_24")) == msk(3, 4), key_bv(G("subnet_16")) == msk(2, 4),
-                    key_bv(G("subnet_8")) == msk(1, 4)), on_sat=rp)
-    ck.side("side/analyze", eng, [], on_sat=rp)
+    src = harness.Src()
+    R = build_analyze(ck, src)
+    rp = harness.make_replayer(ck, "security", "analyze", lambda s, obs: build_analyze(ck, s, obs)["goals"], {})
+    ck.register_src("analyze", {}, src)
+    for g, f in R["goals"].items():
+        ck.prove(g, R["eng"], R["hyps"], f, on_sat=rp, meta={"goal": g})
+    ck.side("analyze/side", R["eng"], R["hyps"], on_sat=rp)
 
 
 def run(tier):
     ck = MirCheck("C13", tier)
-    import c13_replay
-
-    ck.replayer = lambda kind, params: c13_replay.make(ck, kind, params)
     presets = ["default"] if tier == "quick" else ["default", "testnet", "permissive"]
     for p in presets:
         ck.guarded(f"v6[{p}]", lambda p=p: group_add_remove(ck, True, p))
@@ -291,6 +320,13 @@ def run(tier):
 
 
 def replay(path):
-    import c13_replay
+    return harness.replay_file(path, REBUILD)
 
-    return c13_replay.replay_file(path)
+
+def _rebuild(ck, driver, params):
+    if driver == "add_remove":
+        return lambda s, obs: build_add_remove(ck, params["v6"], params["preset"], s, obs)["goals"]
+    return lambda s, obs: build_analyze(ck, s, obs)["goals"]
+
+
+REBUILD = _rebuild
